@@ -862,8 +862,8 @@ static char c_loader_free (char **av) { int d = ai (av, 1); LIB (); NEED (d, T_L
 static char c_mmap_new (char **av) { int d = ai (av, 1), sz = ai (av, 2), e = ai (av, 3); LIB (); EMPTY (d); ERRARG (e, d);
 	psize n = (psize) (sz + 1) * 4096; ppointer r = p_mem_mmap (n, e_in (e)); e_out (e);
 	if (!r) return 'F'; put (d, T_MMAP, r); S[d].a = (long) n; return 'S'; }
-static char c_mmap_free (char **av) { int d = ai (av, 1), e = ai (av, 2); LIB (); NEED (d, T_MMAP); ERRARG (e, d);
-	pboolean ok = p_mem_munmap (S[d].p, (psize) S[d].a, e_in (e)); e_out (e); if (!ok) return 'F'; clr (d); return 'S'; }
+static char c_mmap_free (char **av) { int d = ai (av, 1); LIB (); NEED (d, T_MMAP);
+	pboolean ok = p_mem_munmap (S[d].p, (psize) S[d].a, NULL); if (!ok) return 'F'; clr (d); return 'S'; }
 
 static const struct { const char *name; char (*fn) (char **); } CALLS[] = {
 	{ "lib_init", c_lib_init }, { "lib_shutdown", c_lib_shutdown }, { "cur_thread", c_cur_thread }, { "sysfail", c_sysfail },
@@ -981,12 +981,12 @@ STD (ipc_key_sysv, "ipc_key 0 0", "str_free 0")
 STD (ipc_tmpdir, "ipc_tmpdir 0", "str_free 0")
 STD (dir_basic, "dir_new 0 0 1", "dir_path 0 2", "str_free 2", "dir_free 0", "err_free 1")
 STD (dir_entries, "dir_new 0 0 x", "dir_next 0 1 2", "dirent_free 1", "dir_next 0 1 2", "dirent_free 1", "dir_next 0 1 2", "dirent_free 1",
-     "dir_next 0 1 2", "dirent_free 1", "dir_next 0 1 2", "dirent_free 1", "dir_next 0 1 2", "dir_rewind 0", "dir_next 0 1 2", "dirent_free 1", "dir_free 0", "err_free 2")
-STD (dir_missing, "dir_new 0 1 1", "err_free 1", "dir_new 0 1 x")
+     "dir_next 0 1 2", "dirent_free 1", "dir_next 0 1 2", "dirent_free 1", "dir_next 0 1 2", "dirent_free 1", "dir_rewind 0", "dir_next 0 1 2", "dirent_free 1", "dir_free 0", "err_free 2")
+STD (dir_missing, "dir_new 0 1 1", "dir_free 0", "err_free 1", "dir_new 0 1 x", "dir_free 0")
 STD (file_missing, "file_remove_missing 0", "file_remove_missing 0", "err_free 0", "file_remove_missing x")
 STD (sa_v4, "sa_new 0 0", "sa_addr 0 1", "str_free 1", "sa_free 0")
 STD (sa_v6, "sa_new 0 1", "sa_addr 0 1", "str_free 1", "sa_free 0")
-STD (sa_bad, "sa_new 0 2")
+STD (sa_bad, "sa_new 0 2", "sa_free 0")
 STD (sa_misc, "sa_any 0 0", "sa_any 1 1", "sa_loop 2 0", "sa_loop 3 1", "sa_native 4", "sa_free 0", "sa_free 1", "sa_free 2", "sa_free 3", "sa_free 4")
 STD (sock_basic, "sock_new 0 0 1", "sock_close 0 1", "sock_close 0 1", "sock_free 0", "err_free 1")
 STD (sock_tcp_pair, "sock_new 0 0 9", "sock_listen 0 9", "sock_new 1 0 9", "sock_connect 1 0 9", "sock_accept 0 2 9", "sock_local 1 3 9", "sock_remote 2 4 9",
@@ -1026,10 +1026,10 @@ STD (tls_main, "tls_new 0", "tls_set 0", "tls_get 0", "tls_set 0", "tls_replace 
 STD (tls_key_fail, "tls_new 0", "sysfail pthread_key_create", "tls_set 0", "tls_set 0", "tls_free 0")
 STD (cur_thread, "cur_thread", "cur_thread")
 STD (loader_basic, "loader_new 0 0", "loader_sym 0", "loader_free 0")
-STD (loader_missing, "loader_new 0 1", "loader_new 0 2", "loader_err 1", "str_free 1", "loader_err 1")
+STD (loader_missing, "loader_new 0 1", "loader_free 0", "loader_new 0 2", "loader_free 0", "loader_err 1", "str_free 1", "loader_err 1", "str_free 1")
 STD (loader_dlopen_fail, "sysfail dlopen", "loader_new 0 0", "loader_free 0")
-STD (mmap_basic, "mmap_new 0 1 9", "mmap_free 0 9", "err_free 9")
-STD (mmap_fail, "sysfail mmap", "mmap_new 0 0 9", "err_free 9")
+STD (mmap_basic, "mmap_new 0 1 9", "mmap_free 0", "err_free 9")
+STD (mmap_fail, "sysfail mmap", "mmap_new 0 0 9", "mmap_free 0", "err_free 9")
 STD (cross_ini_containers, "ini_new 0 2", "ini_parse 0 9", "ini_keys 0 0 1", "tree_new 2 1", "tree_insert 2 1", "tree_insert 2 2", "ht_new 3", "ht_insert 3 1 1",
      "hash_new 4 3", "hash_update 4", "hash_string 4 5", "list_new 6", "list_append 6 1", "ht_keys 3 7",
      "list_free 7", "list_free 6", "str_free 5", "hash_free 4", "ht_free 3", "tree_free 2", "strlist_free 1", "ini_free 0", "err_free 9")
@@ -1037,7 +1037,7 @@ STD (cross_dir_hash, "dir_new 0 0 9", "dir_next 0 1 9", "hash_new 2 1", "hash_up
      "err_free 6", "err_free 5", "list_free 4", "str_free 3", "hash_free 2", "dirent_free 1", "dir_free 0", "err_free 9")
 STD (cross_ipc_socket, "sem_new 0 2 0 9", "shm_new 1 3 0 9", "shmbuf_new 2 4 0 9", "sock_new 3 0 9", "sock_listen 3 9", "mutex_new 4", "thread_run 5 1 0 x",
      "thread_unref 5", "mutex_free 4", "sock_free 3", "shmbuf_free 2", "shm_free 1", "sem_free 0", "err_free 9")
-STD (cross_error_chain, "dir_new 0 1 9", "file_remove_missing 9", "sock_bad 9", "err_free 9", "sock_bad 9", "ini_new 1 0", "ini_parse 1 9", "ini_free 1", "err_free 9")
+STD (cross_error_chain, "dir_new 0 1 9", "file_remove_missing 9", "sock_bad 9", "err_free 9", "sock_bad 9", "ini_new 1 0", "ini_parse 1 9", "ini_free 1", "dir_free 0", "err_free 9")
 STD (cross_everything, "strdup 0", "list_new 1", "list_append 1 4", "tree_new 2 2", "tree_insert 2 9", "ht_new 3", "ht_insert 3 7 7", "err_new_literal 4",
      "ini_new 5 1", "ini_parse 5 9", "hash_new 6 0", "hash_string 6 7", "dir_new 8 0 9", "sa_new 10 0", "sock_new 11 1 9", "sem_new 12 5 0 9",
      "mutex_new 13", "tls_new 14", "tls_set 14", "loader_new 15 0", "thread_run 16 1 1 14", "rwlockg_new 17", "shmbuf_new 18 4 0 9",
